@@ -38,6 +38,10 @@ def classify(world, op, got, want):
     k = op[0]
     if k == 'copy_elem':
         return 'element-from-another-parent-not-copied-by-value'
+    if k == 'setidx_own':
+        return 'own-repetition-not-copied-by-value'
+    if k.startswith('f_'):
+        return 'refused-operation-changed-the-encoding:%s' % k
     if sorted(got.replace('\r', '|').replace('~', '|').split('|')) == \
             sorted(want.replace('\r', '|').replace('~', '|').split('|')):
         if k in ('set', 'setidx', 'copy'):
@@ -63,13 +67,26 @@ def run_history(world, ops, rec, gen_next=None, monitors=()):
         i += 1
         case = {'world': world.describe_full() if hasattr(world, 'describe_full') else world.describe(),
                 'ops': done + [op]}
-        try:
-            world.apply_real(op)
-        except Exception as e:
-            rec.violation('valid-operation-raised:%s:%s' % (op[0], type(e).__name__), case, {'exc': repr(e)[:200]})
-            return done, maxreps
-        world.apply_model(op)
-        done.append(op)
+        if op[0].startswith('f_'):
+            # a call that must be refused: the model does not move, the encodings must not either
+            try:
+                hist.apply_wild(world, op)
+            except hist.Skip:
+                continue
+            except Exception:
+                rec.count('refused_operations_inside_histories')
+                done.append(op)
+            else:
+                return done, maxreps      # the call was accepted (state-dependent): the model no longer applies
+        else:
+            try:
+                world.apply_real(op)
+            except Exception as e:
+                rec.violation('valid-operation-raised:%s:%s' % (op[0], type(e).__name__), case,
+                              {'exc': repr(e)[:200]})
+                return done, maxreps
+            world.apply_model(op)
+            done.append(op)
         for el in world.els:
             m = world.model[el]
             if isinstance(m, dict):
@@ -103,6 +120,8 @@ def world_kwargs(desc):
         kw['fname'] = desc['field']
     if 'component' in desc:
         kw['cname'] = desc['component']
+    if 'ec' in desc:
+        kw['ec'] = gen.full_ec(desc['ec'])
     if 'structure' in desc:
         kw['structure'] = desc['structure']
     return kw
@@ -114,12 +133,26 @@ def run_random(spec, rec):
     for i in range(spec['n']):
         level = 2 if i % 3 else 1
         try:
-            w = hist.make_world(spec['world'], v, level, rng)
+            if spec['world'] == 'segment' and i % 4 == 3:
+                # the segment lives in a message declaring non-default delimiters: text assigned to its fields is split
+                # with those
+                w = hist.make_world('segment', v, level, rng, ec=gen.delimiter_set(rng, v, with_truncation=False))
+                rec.count('custom_delimiter_worlds')
+            else:
+                w = hist.make_world(spec['world'], v, level, rng)
         except RuntimeError as e:
             rec.count('world_unavailable')
             continue
         L = rng.randint(2, 30 if i % 5 == 0 else 10)
-        done, maxreps = run_history(w, None, rec, gen_next=lambda k: w.random_op() if k < L else None)
+        REFUSED = ('f_level_set', 'f_version_set', 'f_wrong_name', 'f_foreign_elem', 'f_settype', 'f_deep_level_set')
+
+        def nxt(k, w=w, L=L):
+            if k >= L:
+                return None
+            if rng.random() < 0.12:
+                return hist.wild_op(w, rng.choice(REFUSED))
+            return w.random_op()
+        done, maxreps = run_history(w, None, rec, gen_next=nxt)
         sig = (w.describe(), [[o[0]] + [x if isinstance(x, int) else str(x)[:1] for x in o[1:]] for o in done])
         rec.evaluation(sig, nontrivial=len(done) >= 2 and maxreps >= 2)
         for o in done:
